@@ -323,13 +323,13 @@ impl Engine for C11 {
     }
     fn rule(&self, tier: Tier) -> String {
         format!(
-            "every session of <= {} didOpen/didChange messages over two documents x 7 texts each (clean; a syntax error; faulty, twice: the same fault at the same byte offset on two different lines; includes the other document, twice: the include statement at two different places; includes a faulty file that is only on disk) and a third document: that faulty file, open with an empty buffer, \
+            "every session of <= {} didOpen/didChange messages (thorough: 4, and every session of 5 over ten of the fifteen letters) over two documents x 7 texts each (clean; a syntax error; faulty, twice: the same fault at the same byte offset on two different lines; includes the other document, twice: the include statement at two different places; includes a faulty file that is only on disk) and a third document: that faulty file, open with an empty buffer, \
              the first message to a document being didOpen and later ones didChange, driven through the real server one message at a time to quiescence; after the last message of every session \
              (every session is a prefix of longer ones) the latest publication per URI must equal the diagnostics of the final state and be empty for URIs outside the final workspace; versions per URI never decrease. \
              In addition every schedule (controlled scheduler and lock model of C08, hook H3) of every scenario didOpen ; n1 [; n2 [; n3]] of <= {} open/change notifications \
              (change of the root, resend, a second document, an unseen third; every text of the root carries a diagnostic): per file the versions of the publications, in the order they are sent, never decrease, and what the client holds when everything has ended (file -> number of diagnostics of its latest publication, hook H3) is the same for every schedule. \
              states = distinct (buffers, root) configurations; transitions = messages; non-trivial = sessions of >= 2 messages.",
-            tier.pick(3, 5),
+            tier.pick(3, 4),
             tier.pick(2, 3)
         )
     }
@@ -340,7 +340,13 @@ impl Engine for C11 {
         ]
     }
     fn explore(&self, tier: Tier, ctx: &mut Ctx) {
-        explore(&c11_scenario(), tier.pick(3, 5), &[], ctx);
+        // thorough: every session of <= 4 messages over all 15 letters and every session of 5 over ten of them
+        // (clean / faulty / including / including the disk-only file / syntax error for each document, the emptied third)
+        let core: &[usize] = match tier {
+            Tier::Quick => &[],
+            Tier::Thorough => &[0, 1, 3, 5, 6, 7, 8, 10, 13, 14],
+        };
+        explore(&c11_scenario(), tier.pick(3, 4), core, ctx);
         // the order of publications under every schedule: scenarios of <= 2 (t: 3) open/change notifications after
         // the first open, on the controlled scheduler of C08 (hook H3); per file the published versions never decrease
         let letters = crate::c08::notification_letters();
